@@ -11,12 +11,14 @@ class MultiIndexConverter(Transformer):
     def __init__(self):
         super().__init__()
         self.modified_dimensions = []
+        self.modified_feature_dimensions = []
         self.coords_from_fit = {}
         self.coords_from_transform = {}
 
     def get_serialization_attrs(self) -> dict:
         return dict(
             modified_dimensions=self.modified_dimensions,
+            modified_feature_dimensions=self.modified_feature_dimensions,
             coords_from_fit=self.coords_from_fit,
             coords_from_transform=self.coords_from_transform,
         )
@@ -34,6 +36,8 @@ class MultiIndexConverter(Transformer):
             if isinstance(index, pd.MultiIndex):
                 self.coords_from_fit[dim] = X.coords[dim]
                 self.modified_dimensions.append(dim)
+                if feature_dims is not None and dim in feature_dims:
+                    self.modified_feature_dimensions.append(dim)
 
         return self
 
@@ -46,6 +50,13 @@ class MultiIndexConverter(Transformer):
             self.coords_from_transform[dim] = X_transformed.coords[dim]
 
             index = X_transformed.indexes[dim]
+            # The MultiIndex is replaced by positions: along a feature dimension the
+            # entries must come in the order seen at fit
+            if dim in self.modified_feature_dimensions:
+                if not index.equals(self.coords_from_fit[dim].to_index()):
+                    raise ValueError(
+                        "Cannot transform data. Feature coordinates are different."
+                    )
             X_transformed = X_transformed.drop_vars(dim)
             X_transformed.coords[dim] = range(index.size)
 
